@@ -974,7 +974,8 @@ theorem model_uses_source_expressions (N : Nat) (A : List (List Bool)) (i d : Na
    proved, only checked per case; **round 5b: proved** for every symmetric matrix with C03's
    kernel theorem — `betweenness_kernel_eq_count`, `visibility_betweenness_kernel_eq_count`,
    section "Round 5b" at the end of this file; right-hand side = the count over enumerated
-   shortest paths).
+   shortest paths; **round 5c: kernel model = `betwSpec`** — `betweenness_kernel_eq_spec`, so the
+   theorems below hold for the kernel model itself: `betweenness_kernel_reversal`).
 2. the float kernel under a monotone rounding with exact differences is a subgraph of the
    exact graph; the horizontal graph depends only on the order of the samples.
 3. loop bounds of the five Cython kernels and the index arrays of the three betweenness
@@ -1644,7 +1645,7 @@ with both numbers obtained by *enumerating* the shortest paths as node lists (`s
 distances: the BFS `Net.dist` = `pathLen`, `pathLen_is_bfs`).  (The walk-count form `betwSpec` of
 round 3, in which the reversal theorems are stated, is a second writing of the same definition;
 `betwSpec = interregionalCount` — the concatenation lemma `σ_ts(l) = σ_tl σ_ls` — is compared by the
-driver on every sampled case and remains unproved, see design/C14.md.) -/
+driver on every sampled case; proved in round 5c below: `betwSpec_eq_interregionalCount`.) -/
 
 /-- **`self.nsi_betweenness(sources=S, targets=T)[i]` of a unit-weight undirected network**, as the
 three methods call it: the kernel model (forward BFS with the flat predecessor arrays, backward
